@@ -2502,6 +2502,13 @@ def rule_tick_settles(repo):
     return rule_tick_order(repo)
 
 
+def rule_const_value_fits(repo):
+    """a constant driver carries exactly the value the user wrote: one that does not fit the signal / slice is rejected, not masked.
+    Shared with C05 (R-C05-const-fit)."""
+    from rules.c05 import rule_const_fit
+    return rule_const_fit(repo)
+
+
 def rule_writer_via_helpers(repo):
     """the writer of a net is found among the signals update blocks write; a write made inside a (nested) @s.func helper must be
     credited to the calling block, otherwise a driven net is rejected with NoWriterError or resolved to the wrong writer.
@@ -2530,6 +2537,13 @@ def rule_replace_keeps_nets(repo):
     return res
 
 
+def rule_replace_registers_slices(repo):
+    """after replace_component the slices / struct fields created while the saved connections are re-applied are registered in
+    all_signals, otherwise the nets through them are never resolved.  Shared with C15 (R-C15-sites)."""
+    from rules.c15 import rule_sites
+    return rule_sites(repo)
+
+
 def rule_replace_filters(repo):
     """the filter that separates outside connections from the removed subtree's own ones excludes removed signals, method
     ports and constants.  Shared with C15 (R-C15-keys)."""
@@ -2539,7 +2553,7 @@ def rule_replace_filters(repo):
 
 RULES = [rule_symmetric, rule_const, rule_nodes, rule_flood, rule_seed, rule_unique, rule_propagate, rule_residence, rule_netblock, rule_overlap,
          rule_pending_flag, rule_ancestors, rule_collectors, rule_ifc_symmetric, rule_net_ordering, rule_writer_via_helpers,
-         rule_names_denote_storage, rule_replace_keeps_nets, rule_replace_filters, rule_byname, rule_nets_readonly, rule_scc_watch, rule_tick_settles]
+         rule_names_denote_storage, rule_replace_keeps_nets, rule_replace_filters, rule_byname, rule_nets_readonly, rule_scc_watch, rule_tick_settles, rule_const_value_fits, rule_replace_registers_slices]
 
 
 # ---------------------------------------------------------------------------------------------------------------
